@@ -28,7 +28,7 @@ func genCond(r *Rnd, allowEmpty bool) Cond {
 		c.Variadic = r.Bool() // one call listing them all, or one call each
 	}
 	if r.P(0.35) {
-		c.Results = append(c.Results, pick(r, 0, 1, 2, 3))
+		c.Results = append(c.Results, pick(r, 0, 1, 2, 3, boxedBase+1, boxedBase+2))
 	}
 	if r.P(0.3) {
 		c.Preds = append(c.Preds, r.Intn(PCount))
@@ -71,6 +71,9 @@ func genRetry(r *Rnd, unit time.Duration) PolicySpec {
 			p.DelayKind = DelayFixed
 			p.Delay = time.Duration(r.Range(1, 10)) * unit
 		}
+	}
+	if p.DelayKind != DelayNone && r.P(0.15) {
+		p.PreReplaced = true
 	}
 	if p.DelayKind != DelayNone && r.P(0.3) {
 		if r.Bool() {
@@ -201,6 +204,9 @@ func genCache(r *Rnd) PolicySpec {
 // genOutcome draws one function outcome.
 func genOutcome(r *Rnd, unit time.Duration, failP float64) Outcome {
 	o := Outcome{Result: pick(r, 0, 1, 2, 3, 4, 100)}
+	if r.P(0.06) {
+		o.Result = boxedBase + pick(r, 1, 2, 3) // a freshly allocated pointer result
+	}
 	if r.P(failP) {
 		o.Err = pick(r, EA, EA, EB, EC, EWrapA, EJoinBC, EValErr, EPtrErr, EWrapPtr)
 		if r.P(0.7) {
